@@ -23,12 +23,12 @@ import numpy as np
 from lib import common as C
 
 LEVEL = "proof"
-STATIC = ["Geometry/Frame.vo", "Geometry/FrameProofs.vo", "Geometry/ComReals.vo", "Base/CaseUtil.vo"]
+STATIC = ["Geometry/Frame.vo", "Geometry/FrameProofs.vo", "Geometry/ComReals.vo", "Geometry/ComInterval.vo", "Base/CaseUtil.vo"]
 TOL = Fr(1, 10 ** 9)
 TOLF = 1e-9
 GRID = 4096
 PREAMBLE = ("From Coq Require Import ZArith QArith List Bool.\nImport ListNotations.\n"
-            "From MV Require Import Geometry.Frame.\nOpen Scope Q_scope.\n")
+            "From MV Require Import Geometry.Frame Geometry.ComInterval.\nOpen Scope Q_scope.\n")
 SPECIES = [1, 6, 8, 14, 22, 29, 47, 79]
 # primitive Pythagorean quadruples a^2+b^2+c^2 = d^2 (incl. degenerate ones = triples / axis vectors)
 QUADS = [(0, 0, 1, 1), (0, 3, 4, 5), (1, 2, 2, 3), (2, 3, 6, 7), (1, 4, 8, 9), (4, 4, 7, 9), (2, 6, 9, 11), (6, 6, 7, 11),
@@ -659,8 +659,14 @@ def coq_term(c, r):
                 t, C.listlit([q(w) for w in ws]), ql(c["positions"]), qv(r["com"]), qv(r["evals"]), qm(r["evecs"]),
                 t, qm(c["cell"]), qb3(c["pbc"]), C.listlit([q(w) for w in r["masses"]]), ql(c["positions"]), qv(r["com"]))
         if fn == "com":
-            return "agree_com_nonperiodic %s %s %s %s %s %s" % (
-                t, qm(c["cell"]), qb3(c["pbc"]), C.listlit([q(w) for w in r["masses"]]), ql(c["positions"]), qv(r["com"]))
+            # periodic axes: the certified interval checker (ComInterval.com_check) on the returned centre, backward error
+            # 1e-9 x total mass; axes with a mean resultant below 1e-6 are outside the theorems' hypothesis and skipped
+            skip = [bool(c["pbc"][i]) and r["resultant_rel"][i] < 1e-6 for i in range(3)]
+            eps = q(1e-9 * sum(abs(w) for w in r["masses"]))
+            ws = C.listlit([q(w) for w in r["masses"]])
+            return "andb (agree_com_nonperiodic %s %s %s %s %s %s) (agree_com_periodic %s %s %s %s %s %s %s)" % (
+                t, qm(c["cell"]), qb3(c["pbc"]), ws, ql(c["positions"]), qv(r["com"]),
+                qm(c["cell"]), qb3(c["pbc"]), qb3(skip), ws, ql(c["positions"]), qv(r["com"]), eps)
     except (ValueError, OverflowError, TypeError):
         return None
     return None
